@@ -21,7 +21,8 @@ gradient-flow ghost (DESIGN 3.3):
   grad.reaches_<x>       the differentiated value depends differentiably on it
   grad.weights_constant  the weights seen INSIDE the differentiated pseudo-loss
                          do not depend differentiably on the policy
-  update.*               the optimizer step is applied to that object only
+  update.*               the optimizer step is applied to that object with that gradient,
+                         and no other network's parameters change
 PPO: the objective restricted to the open region where no sample is clipped
 equals the unclipped surrogate (=> same gradient, in particular at unchanged
 parameters, r == 1); restricted to the open region where every sample is
@@ -32,7 +33,7 @@ import z3
 
 from pyvc import core as C
 from pyvc import tensor as T
-from pyvc.core import INT, KEY, REAL, Sym, band, bnot, bor, iff, implies
+from pyvc.core import INT, KEY, REAL, Sym, band, iff
 from pyvc.lib.ext_policy_stub import (
     flat_value_call,
     mk_flat_value_net,
@@ -46,7 +47,7 @@ from pyvc.lib.ext_numeric import spec_sum
 from pyvc.runner import Task
 
 from .nets import *  # noqa: F401,F403
-from .nets import mk_net, mk_optimizer, net_call, no_grad_through, rows_tensor
+from .nets import mk_net, mk_optimizer, net_call, no_grad_through, rows_tensor  # noqa: F811
 
 PROPERTY = "C12"
 LEVEL = "proof"
@@ -438,7 +439,7 @@ def update_obligations(E, opt, target, grad, before, changed):
         E.st.ok(f"post.update.{target.name}_with_its_gradient")
     else:
         E.st.fail(f"post.update.{target.name}_with_its_gradient", "optimizer step not applied to the differentiated object with that gradient")
-    oblige_params(E, "post.update.only_actor_parameters_change", before, changed)
+    oblige_params(E, "post.update.frame_no_other_parameters_change", before, changed)
 
 
 def h_ddpg_update_actor(E):
